@@ -33,9 +33,9 @@ def scopes(tier):
     # matchrule semantics (what "a matching exception" means): all single rules and pairs of rules over a
     # small alphabet, inverted or not, data shorter / longer than the values
     if q:
-        out.append(("size+match", {"Parts": '{"size", "match"}', "MSyms": "{1, 2, 3}", "MCi": "{FALSE, TRUE}"}))
+        out.append(("static", {"Parts": '{"size", "match", "cri", "xlist"}', "MSyms": "{1, 2, 3}", "MCi": "{FALSE, TRUE}"}))
     else:
-        out.append(("size+match", {"Parts": '{"size", "match"}', "MSyms": "{1, 2, 3}", "MCi": "{FALSE, TRUE}", "MPairLens": "{1, 2, 3}"}))
+        out.append(("static", {"Parts": '{"size", "match", "cri", "xlist"}', "MSyms": "{1, 2, 3}", "MCi": "{FALSE, TRUE}", "MPairLens": "{1, 2, 3}"}))
     # a rule gives source 2 its own threshold, below / equal / above the global one; long enough to flood a
     # banned source beyond unban * its threshold and then keep it silent for unban + 1 rounds
     rthr = dict(sp, NSrc="2", Kinds='{"n"}', Dts="{1}", Modes='{"rules"}', Us="{4, 1}")
@@ -108,20 +108,29 @@ def strict_runs(ctx):
                  overrides={"Parts": '{"match"}', "MSyms": "{1, 3}", "MCi": "{TRUE}", "M_LowerCopies": "FALSE"})
     if r6.violated != "DataUnchanged":
         raise vlib.Infra("specification mutant that folds case in place does not violate DataUnchanged (%s)" % r6.violated)
+    r7 = ctx.tlc("Admission", "Admission_mutant.cfg", timeout=300, deadlock=False, name="mutant/stale-error-into-decode",
+                 overrides={"Parts": '{"cri"}', "M_ErrClearedBeforeDecode": "FALSE"})
+    if r7.violated not in ("CriAdmitted", "CriVerdictIgnoresAntispam"):
+        raise vlib.Infra("specification mutant that keeps the timestamp-parse error does not violate CriAdmitted (%s)" % r7.violated)
+    r8 = ctx.tlc("Admission", "Admission_mutant.cfg", timeout=300, deadlock=False, name="mutant/exception-subject-sticks",
+                 overrides={"Parts": '{"xlist"}', "M_SubjectPerException": "FALSE"})
+    if r8.violated != "ExceptionListExempts":
+        raise vlib.Infra("specification mutant whose exception subject sticks does not violate ExceptionListExempts (%s)" % r8.violated)
     if r4.violated != "UnbanWithin":
         raise vlib.Infra("specification mutant without the per-source cap does not violate UnbanWithin (%s)" % r4.violated)
     if r5.violated != "MatchAgrees":
         raise vlib.Infra("specification mutant with the length shortcut ahead of Invert does not violate MatchAgrees (%s)" % r5.violated)
     return {"residual_on_violates": r1.violated, "exceptions_ignored_on_violates": r2.violated, "both_off_ok": r3.ok,
             "mutant_cap_global_violates": r4.violated, "mutant_shortcut_before_invert_violates": r5.violated,
-            "mutant_lowered_in_place_violates": r6.violated}
+            "mutant_lowered_in_place_violates": r6.violated,
+            "mutant_stale_error_violates": r7.violated, "mutant_subject_sticks_violates": r8.violated}
 
 
 def run(ctx):
     cfg = "Admission_quick.cfg" if ctx.tier == "quick" else "Admission_thorough.cfg"
     size_path = os.path.join(ctx.scratch, "c20_pipeline_cases.ndjson")
     spam_path = os.path.join(ctx.scratch, "c20_antispam_cases.ndjson")
-    n_size = n_spam = n_pipe_hist = n_match = 0
+    n_size = n_spam = n_pipe_hist = n_match = n_cri = n_xl = 0
     per_scope = {}
     # share of histories that also go through Pipeline.In (unban iterations are the constant 4 there)
     pipe_budget = 24000 if ctx.tier == "quick" else 100000
@@ -149,6 +158,13 @@ def run(ctx):
                 elif part == "match":
                     fsp.write(line + "\n")
                     n_match += 1
+                elif part == "cri":
+                    fsz.write(line + "\n")
+                    n_cri += 1
+                elif part == "xlist":
+                    fsp.write(line + "\n")
+                    fsz.write(line + "\n")
+                    n_xl += 1
                 else:
                     fsp.write(line + "\n")
                     n_spam += 1
@@ -187,7 +203,11 @@ def run(ctx):
         with open(size_path, "w") as fsz, open(spam_path, "w") as fsp:
             for r in recs:
                 c = r.get("case") or {}
-                if r.get("harness") == "antispam-match":
+                if r.get("harness") == "antispam-xlist":
+                    fsp.write(json.dumps(dict(r.get("xlist_case") or {}, part="xlist")) + "\n")
+                elif r.get("harness") in ("pipeline-cri", "pipeline-xlist"):
+                    fsz.write(json.dumps(dict(r.get("raw_case") or {}, part="cri" if r["harness"] == "pipeline-cri" else "xlist")) + "\n")
+                elif r.get("harness") == "antispam-match":
                     fsp.write(json.dumps(dict(r.get("match_case") or {}, part="match")) + "\n")
                 elif r.get("harness") == "antispam":
                     fsp.write(json.dumps(dict(c, part="spam")) + "\n")
@@ -214,6 +234,10 @@ def run(ctx):
     if not ctx.replay:
         if ra["executed"] != n_spam:
             raise vlib.Infra("antispam harness executed %d of %d histories" % (ra["executed"], n_spam))
+        if ra["xlist_cases"] != n_xl or rp["misc"]["xlist_executed"] != n_xl:
+            raise vlib.Infra("exception-list cases executed: antispam %d, pipeline %d of %d" % (ra["xlist_cases"], rp["misc"]["xlist_executed"], n_xl))
+        if rp["misc"]["cri_executed"] < 2 * n_cri:
+            raise vlib.Infra("pipeline harness executed %d In calls for %d cri cases" % (rp["misc"]["cri_executed"], n_cri))
         if ra["match_cases"] != n_match:
             raise vlib.Infra("antispam harness executed %d of %d matchrule cases" % (ra["match_cases"], n_match))
         if rp["hist"]["executed"] != n_pipe_hist:
@@ -229,7 +253,7 @@ def run(ctx):
     # ---- classification
     recs = []
     for v in ((ra.get("violations") or []) + (rp["hist"].get("violations") or []) + (rp["sched"].get("violations") or []) +
-              (rp["size"].get("violations") or [])):
+              (rp["size"].get("violations") or []) + (rp["misc"].get("violations") or [])):
         recs.append(v)
     ctx.classify(recs)
     # the harnesses keep at most 8 records per class; credit known findings with the true number of occurrences
@@ -258,7 +282,7 @@ def run(ctx):
         stale.append("D_ResidualAfterUnban is on in the specification but the real code no longer bans below threshold after an unban")
     if not ctx.replay and strict["exceptions_ignored_on_violates"] and not any(k.startswith("exception_dropped/false/true/exception") for k in counts):
         stale.append("D_ExceptionsIgnoredWithRules is on in the specification but the real code no longer drops exception matches when rules exist")
-    drift = ra.get("drift", 0) + rp["hist"].get("drift", 0) + ra.get("dump_drift", 0)
+    drift = ra.get("drift", 0) + rp["hist"].get("drift", 0) + ra.get("dump_drift", 0) + rp["misc"].get("xlist_drift", 0)
     ctx.drift = drift + len(stale)
     for s in stale:
         vlib.log("MODEL-DRIFT:", s)
@@ -269,7 +293,7 @@ def run(ctx):
 
     # ---- evidence
     ctx.evaluations = ra["steps"] + rp["hist"]["steps"] + rp["size"]["executed"]
-    ctx.traces_validated = ra["executed"] + ra["match_cases"] + rp["hist"]["executed"] + rp["sched"]["executed"] + rp["size"]["executed"]
+    ctx.traces_validated = ra["xlist_cases"] + rp["misc"]["xlist_executed"] + rp["misc"]["cri_executed"] + ra["executed"] + ra["match_cases"] + rp["hist"]["executed"] + rp["sched"]["executed"] + rp["size"]["executed"]
     ctx.nontrivial = ra["cases_with_ban"] + rp["size"]["cut_delivered"] + rp["size"]["kept_at_limit"]
     ctx.exhaustive = True
     ctx.rule = ("size: case = (body length 0..M+2, trailing newline, max_event_size 0..8, cut_off, cut-off field, decodable, "
@@ -279,16 +303,21 @@ def run(ctx):
                 "%d steps with a determined verdict), and a seeded sample of %d of them through the real Pipeline.In with the cri "
                 "decoder; %d histories of the shape burst / >= unban+1 maintenance rounds / burst on a RUNNING pipeline whose own ticker "
                 "schedules Maintenance (interval 20 ms, pause 10 x rounds + 300 ms; %d of them saw the ban and then the admission). matchrule: %d (rule set, data) cases, each through the real IsSpam as an exception on the event bytes, as an "
-                "exception on the source name and as an unlimited do_if rule. Non-trivial = histories in which the real antispammer banned a source + size cases that were cut and "
+                "exception on the source name and as an unlimited do_if rule. cri: %d (zone, stream, full/partial, antispam setting) cases, each with 4 "
+                "well-formed lines through Pipeline.In with decoder cri and decoder auto + suggested cri (%d In calls, all must be admitted and "
+                "delivered with log/time/stream unaltered). exception lists: %d lists of 1..3 exceptions (record / source-name subject, matching "
+                "bits) through the real IsSpam and through Pipeline.In. Non-trivial = histories in which the real antispammer banned a source + size cases that were cut and "
                 "delivered or sat exactly at the limit." %
                 (n_size, rp["size"]["executed"], rp["size"]["delivered"], rp["size"]["cut_delivered"], rp["size"]["kept_at_limit"],
-                 n_spam, json.dumps(per_scope), ra["steps"], ra["bans"], ra["unbans"], ra["determined"], n_pipe_hist, n_sched, rp["sched"]["banned_then_admitted"], n_match))
+                 n_spam, json.dumps(per_scope), ra["steps"], ra["bans"], ra["unbans"], ra["determined"], n_pipe_hist, n_sched, rp["sched"]["banned_then_admitted"], n_match,
+                 n_cri, rp["misc"]["cri_executed"], n_xl))
     for s in samples[:4]:
         ctx.sample(s)
     ctx.extra["c20"] = {"scopes": per_scope, "strict_runs": strict, "antispam_harness": {k: ra[k] for k in ra if k not in ("violations", "drift_samples")},
                         "pipeline_size": {k: rp["size"][k] for k in rp["size"] if k != "violations"},
                         "pipeline_hist": {k: rp["hist"][k] for k in rp["hist"] if k not in ("violations", "drift_samples")},
-                        "pipeline_scheduled": {k: rp["sched"][k] for k in rp["sched"] if k != "violations"}}
+                        "pipeline_scheduled": {k: rp["sched"][k] for k in rp["sched"] if k != "violations"},
+                        "pipeline_cri_xlist": {k: rp["misc"][k] for k in rp["misc"] if k != "violations"}}
     ctx.assumptions += [
         "a source's threshold is a function of the source (rules match on source name); event-content rules that give one "
         "source several thresholds are outside the scope",
